@@ -881,15 +881,16 @@ def names_method(exc: BaseException, cfg: dict) -> str | None:
     return None
 
 
-def evaluate(inp: Inputs, cfg: dict, check_off: bool = False) -> Outcome:
+def evaluate(inp: Inputs, cfg: dict, check_off: bool = False, reload: bool = True) -> Outcome:
     """Load cfg through Config.load (the real validation path), run
     compute_emissions once and classify."""
     import traceback
 
     from AEIC.emissions import compute_emissions
 
-    core.load_config(emissions=dict(cfg))
-    clear_caches()
+    if reload:
+        core.load_config(emissions=dict(cfg))
+        clear_caches()
     try:
         with contextlib.redirect_stdout(io.StringIO()):
             e = compute_emissions(inp.pm, inp.fuel, inp.traj)
